@@ -11,18 +11,19 @@ open EupsModel.Db EupsModel.Cache
 
 /-- A dry run emits no effect at all, whatever the state of the database, of the in-memory stacks and of the
 directories, and whatever the arguments: `declare` (new declaration, redeclaration, conflicting redeclaration,
-tag move, tag only, `tablefile="none"`, forced), `undeclare` (with or without version, tag only,
+tag move, tag only, `tablefile="none"`, forced, with external files), `undeclare` (with or without version, tag only,
 version-and-tag), `unassignTag`, `remove`. -/
 theorem C15_noaction_emits_nothing (nst : Nat) (c : Cmd) (h : c.noaction = true) (p : Proc) :
     (run nst c p).2 = p := run_noaction nst c h p
 
 /-- For every state of the world and every listed command run with `noaction` by any user (killed anywhere
 or not): the database a fresh reader sees, the modification time of every record (no version or chain file is
-rewritten) and the installation directories are exactly what they were.  Only cache files may differ: loading
+rewritten), the installation directories and the files of the extra directories (`-L`) are exactly what they
+were.  Only cache files may differ: loading
 the stacks may have rebuilt a stale cache, which the property excludes. -/
 theorem C15_noaction_is_identity (w : World) (u : User) (c : Cmd) (crash : Option Nat) (h : c.noaction = true) :
     (step w (.run u c crash)).db = w.db ∧ (step w (.run u c crash)).dirs = w.dirs ∧
-      (step w (.run u c crash)).touch = w.touch :=
+      (step w (.run u c crash)).touch = w.touch ∧ (step w (.run u c crash)).extras = w.extras :=
   step_of_empty_trace true w u c crash (fun p hp => by rw [run_noaction w.nst c h p]; exact hp)
 
 /-! ### non-vacuity: the same commands without `noaction` do change the database -/
@@ -32,9 +33,9 @@ example :
     let p : Name := [112]; let L : Flav := [76]
     let dirs : List DirEnt := [⟨⟨0, relDir L p [49]⟩, p⟩]
     let dry := step (World.init 2 dirs)
-      (.run 0 (.declare ⟨L, p, [49], some ⟨0, relDir L p [49]⟩, none, false, none, false, true⟩) none)
+      (.run 0 (.declare ⟨L, p, [49], some ⟨0, relDir L p [49]⟩, none, false, none, false, true, []⟩) none)
     let real := step (World.init 2 dirs)
-      (.run 0 (.declare ⟨L, p, [49], some ⟨0, relDir L p [49]⟩, none, false, none, false, false⟩) none)
+      (.run 0 (.declare ⟨L, p, [49], some ⟨0, relDir L p [49]⟩, none, false, none, false, false, []⟩) none)
     (dry.db.decls.length, dry.db.tags.length, real.db.decls.length, real.db.tags.length) = (0, 0, 1, 1) := by
   decide
 
@@ -43,10 +44,20 @@ example :
     let p : Name := [112]; let L : Flav := [76]
     let dirs : List DirEnt := [⟨⟨0, relDir L p [49]⟩, p⟩]
     let w := step (World.init 2 dirs)
-      (.run 0 (.declare ⟨L, p, [49], some ⟨0, relDir L p [49]⟩, none, false, none, false, false⟩) none)
-    let dry := step w (.run 0 (.remove L p [49] false true) none)
-    let real := step w (.run 0 (.remove L p [49] false false) none)
+      (.run 0 (.declare ⟨L, p, [49], some ⟨0, relDir L p [49]⟩, none, false, none, false, false, []⟩) none)
+    let dry := step w (.run 0 (.remove L p [49] false true false none) none)
+    let real := step w (.run 0 (.remove L p [49] false false false none) none)
     (dry.db.decls.length, dry.dirs.length, real.db.decls.length, real.dirs.length) = (1, 1, 0, 0) := by
   decide
+
+/-- `declare p 1 <dir> -L doc/a.txt`: the dry run copies nothing, the real run saves the file -/
+example :
+    let p : Name := [112]; let L : Flav := [76]
+    let dirs : List DirEnt := [⟨⟨0, relDir L p [49]⟩, p⟩]
+    let dry := step (World.init 2 dirs)
+      (.run 0 (.declare ⟨L, p, [49], some ⟨0, relDir L p [49]⟩, none, false, none, false, true, [([100], 1)]⟩) none)
+    let real := step (World.init 2 dirs)
+      (.run 0 (.declare ⟨L, p, [49], some ⟨0, relDir L p [49]⟩, none, false, none, false, false, [([100], 1)]⟩) none)
+    (dry.extras.length, real.extras.length) = (0, 1) := by decide
 
 end EupsModel.C15
